@@ -225,7 +225,11 @@ def run(m: Model, r: Report, tier: str) -> None:
             fact_ok=f"order edges: {sorted((a[1] + '@' + a[0].split('.')[-1], b[1] + '@' + b[0].split('.')[-1]) for a, b in edges)}")
 
     # ---------------------------------------------------------------- R7
-    worker = m.require_function(f"{ECU}.ECU._tester_present_worker")
+    # the background worker by role (a private coroutine may be renamed): what start_cyclic_tester_present starts as a task
+    roots7 = [cs for cs in cg.task_roots if cs.caller.qualname == f"{ECU}.ECU.start_cyclic_tester_present" and cs.targets]
+    if len(roots7) != 1:
+        raise AnalysisError("no create_task(<tester present worker>) found in ECU.start_cyclic_tester_present")
+    worker = roots7[0].targets[0]
     calls = [cs for cs in cg.sites[worker.qualname] if cs.receiver == "self" and cs.targets]
     reach = cg.reachable([worker])
     direct_io = [q for q in reach if q in methods and any(f is methods[q] for f, n in io_sites) and not must.get(q, False)
@@ -234,7 +238,7 @@ def run(m: Model, r: Report, tier: str) -> None:
             f"the worker must use the locked public path (ping -> tester_present -> request); unlocked I/O reachable: {direct_io}", loc=worker.loc)
     starters = [cs for cs in cg.task_roots if any(t.qualname == worker.qualname for t in cs.targets)]
     if not starters:
-        raise AnalysisError("no create_task(self._tester_present_worker(...)) found")
+        raise AnalysisError("no create_task(<tester present worker>) found")
 
     r.assumptions += ["asyncio.Lock semantics (FIFO, released by `async with` on every exit incl. cancellation)",
                       "name-based resolution: self.transport is only used through the attribute of that name"]
